@@ -5,6 +5,7 @@ import (
 	"errors"
 	"io"
 	"math/rand"
+	"time"
 
 	"github.com/bluenviron/gomavlib/v3/pkg/dialect"
 	"github.com/bluenviron/gomavlib/v3/pkg/frame"
@@ -14,6 +15,9 @@ var errSentinel = errors.New("verif: injected transport error")
 
 // chunkReader delivers data[:limit] in chunks following a schedule, then fails.
 type chunkReader struct {
+	pauseAt  int           // before delivering the byte at this offset ...
+	pause    time.Duration // ... the transport is silent for this long (0: never)
+	paused   bool
 	data     []byte
 	limit    int   // bytes delivered before the error
 	sched    []int // chunk sizes, cycled; empty = as much as asked
@@ -28,6 +32,10 @@ func (c *chunkReader) Read(p []byte) (int, error) {
 	if c.pos >= c.limit {
 		return 0, c.err
 	}
+	if c.pause > 0 && !c.paused && c.pos >= c.pauseAt {
+		c.paused = true
+		time.Sleep(c.pause)
+	}
 	n := len(p)
 	if len(c.sched) > 0 {
 		k := c.sched[c.si%len(c.sched)]
@@ -41,6 +49,9 @@ func (c *chunkReader) Read(p []byte) (int, error) {
 	}
 	if n > c.limit-c.pos {
 		n = c.limit - c.pos
+	}
+	if c.pause > 0 && !c.paused && c.pos+n > c.pauseAt {
+		n = c.pauseAt - c.pos // nothing of what follows the silence arrives before it
 	}
 	if n == 0 {
 		n = 1
@@ -67,6 +78,8 @@ type streamCfg struct {
 	drw     *dialect.ReadWriter
 	dl      []int // def indices (1-based) of the dialect, for the spec
 	key     *frame.V2Key
+	pauseAt int // the transport is silent for `pause` before the byte at this offset
+	pause   time.Duration
 	bufSize int // size of the caller's bufio.Reader (0 = 512, what the library's own constructors use)
 }
 
@@ -80,7 +93,7 @@ func runStream(data []byte, errat int, errkind string, sched []int, withData boo
 	if errkind == "sentinel" {
 		terr = errSentinel
 	}
-	src := &chunkReader{data: data, limit: limit, sched: sched, err: terr, withData: withData}
+	src := &chunkReader{data: data, limit: limit, sched: sched, err: terr, withData: withData, pauseAt: cfg.pauseAt, pause: cfg.pause}
 	bs := cfg.bufSize
 	if bs == 0 {
 		bs = 512
